@@ -9,7 +9,7 @@ def run(ctx):
         "TLC against the closed form; the real conversions are swept (quick: 15 windows of 700-1500 days per "
         "system; thorough: every whole day 0..=2958465 in both systems) through ExcelDateTime and Data/DataRef "
         "Int/Float/DateTime paths (which must agree), fractions on and +-0.4 ms around second/minute/hour/day "
-        "boundaries, durations, and out-of-range values; every result is one trace event validated against "
+        "boundaries, monotone chains of serials across the special days (consecutive pairs, both results logged), durations, and out-of-range values; every result is one trace event validated against "
         "the spec; non-trivial = every event (each is a distinct serial/path)")
     ctx.assumptions += ["chrono's NaiveDateTime arithmetic", "exact .5 ms ties and NaN are not asserted",
                         "serial 60 in the 1900 system (fictitious day) is only required not to advance the calendar"]
